@@ -436,10 +436,27 @@ impl std::ops::Neg for Quantity {
     }
 }
 
+impl Quantity {
+    /// The values of both quantities, expressed in a common unit. Like for addition and
+    /// subtraction, we use the smaller of the two units. This makes sure that comparisons
+    /// do not depend on the order of the operands: `a == b` iff `b == a`, `a < b` iff `b > a`.
+    fn values_in_common_unit(&self, other: &Self) -> Result<(Number, Number)> {
+        if self.unit == other.unit {
+            Ok((self.value, other.value))
+        } else {
+            let common_unit = self.unit.smaller_unit(&other.unit);
+            Ok((
+                self.convert_to(common_unit)?.value,
+                other.convert_to(common_unit)?.value,
+            ))
+        }
+    }
+}
+
 impl PartialEq for Quantity {
     fn eq(&self, other: &Self) -> bool {
-        if let Ok(other_converted) = other.convert_to(self.unit()) {
-            self.value == other_converted.value
+        if let Ok((lhs, rhs)) = self.values_in_common_unit(other) {
+            lhs == rhs
         } else {
             false
         }
@@ -448,8 +465,8 @@ impl PartialEq for Quantity {
 
 impl PartialOrd for Quantity {
     fn partial_cmp(&self, other: &Self) -> Option<std::cmp::Ordering> {
-        let other_converted = other.convert_to(self.unit()).ok()?;
-        self.value.partial_cmp(&other_converted.value)
+        let (lhs, rhs) = self.values_in_common_unit(other).ok()?;
+        lhs.partial_cmp(&rhs)
     }
 }
 
@@ -477,13 +494,12 @@ impl Quantity {
             return QuantityOrdering::NanOperand;
         }
 
-        let Ok(other_converted) = other.convert_to(self.unit()) else {
+        let Ok((lhs, rhs)) = self.values_in_common_unit(other) else {
             return QuantityOrdering::IncompatibleUnits;
         };
 
-        let cmp = self
-            .value
-            .partial_cmp(&other_converted.value)
+        let cmp = lhs
+            .partial_cmp(&rhs)
             .expect("unexpectedly got a None partial_cmp from non-NaN arguments");
 
         QuantityOrdering::Ok(cmp)
